@@ -484,13 +484,14 @@ func (g *gen) ctxCase(ctx, src string) {
 		g.out.Dist["unreadable"]++
 		return
 	}
+	input := tokItems(toks)
 	impl := escFinal(implExpand(g.env, src))
 	if m := retranslate(g.env, toks); m != "" {
 		impl = escFinal(m)
 	}
 	blk := "{" + src + "}"
 	val := evalSource(wrapCtx(ctx, blk, blk), true)
-	g.out.Case(tokItems(toks), impl+"\t"+val+"\t"+escFinal(src)+"\t"+ctx, true, "ctx-"+ctx)
+	g.out.Case(input, impl+"\t"+val+"\t"+escFinal(src)+"\t"+ctx, true, "ctx-"+ctx)
 }
 
 // parseCase: correspondence on the implementation's own token list.
@@ -505,6 +506,7 @@ func (g *gen) parseCase(src string, withEval bool, tags ...string) {
 		g.out.Dist["unreadable"]++
 		return
 	}
+	input := tokItems(toks) // before anything is translated: the tokens as the reader built them
 	impl := escFinal(implExpand(g.env, src))
 	if m := retranslate(g.env, toks); m != "" {
 		impl = escFinal(m)
@@ -519,7 +521,7 @@ func (g *gen) parseCase(src string, withEval bool, tags ...string) {
 	} else {
 		impl += "\t\t" + escFinal(src)
 	}
-	g.out.Case(tokItems(toks), impl, true, tags...)
+	g.out.Case(input, impl, true, tags...)
 }
 
 // item of a single token text (read alone by the real reader), memoised.
